@@ -1047,3 +1047,391 @@ resolve_property!(
         "tokio's paused clock and timer wheel are trusted (10 ms tolerance on bounds)"
     ]
 );
+
+// ======================================================================= C10
+
+pub struct C10;
+
+pub const AUTH_APEX: &str = "loc.test.";
+pub const AUTH_SOA: &str = "SOA ns.loc.test. admin.loc.test. 1 3600 600 86400 300";
+
+/// Why a returned record list is not "aliases in chain order from the
+/// question name, then only records of the asked type at the final target".
+pub fn chain_shape_error(qname: &str, qtype: QueryType, rrs: &[ResourceRecord]) -> Option<String> {
+    let mut expect_owner = qname.to_ascii_lowercase();
+    let mut seen_owners: Vec<String> = Vec::new();
+    let mut i = 0;
+    while i < rrs.len() {
+        if let RecordTypeWithData::CNAME { cname } = &rrs[i].rtype_with_data {
+            let owner = rrs[i].name.to_dotted_string().to_ascii_lowercase();
+            if owner != expect_owner {
+                return Some(format!(
+                    "alias #{i} is owned by {owner}, expected {expect_owner} (the previous target)"
+                ));
+            }
+            if seen_owners.contains(&owner) {
+                return Some(format!("alias owner {owner} appears twice"));
+            }
+            seen_owners.push(owner);
+            expect_owner = cname.to_dotted_string().to_ascii_lowercase();
+            i += 1;
+        } else {
+            break;
+        }
+    }
+    let mut finals: Vec<(String, String)> = Vec::new();
+    for rr in &rrs[i..] {
+        if matches!(rr.rtype_with_data, RecordTypeWithData::CNAME { .. }) {
+            return Some(format!("alias {} after the final records began", show_rr(rr)));
+        }
+        if !rr.rtype_with_data.matches(qtype) {
+            return Some(format!("{} is not of the asked type", show_rr(rr)));
+        }
+        let owner = rr.name.to_dotted_string().to_ascii_lowercase();
+        if owner != expect_owner {
+            return Some(format!(
+                "{} is not owned by the final target {expect_owner}",
+                show_rr(rr)
+            ));
+        }
+        let k = rr_key(rr);
+        if finals.contains(&k) {
+            return Some(format!("{} appears twice", show_rr(rr)));
+        }
+        finals.push(k);
+    }
+    None
+}
+
+fn gen_c10(seed: u64, _index: u64, tier: Tier) -> ResolvePlan {
+    let mut r = Rng::new(seed);
+    let mut knobs = random_benign_knobs(&mut r);
+    knobs.cache_size = 512;
+    knobs.server.shuffle_answers = r.chance(0.3);
+    let mode = *r.pick(&["recursive", "recursive", "forwarding", "authoritative"]);
+    if mode == "forwarding" {
+        knobs.mode = "forwarding".into();
+    }
+    let opts = GenOpts {
+        max_depth: 2,
+        max_zones: r.range(3, 5) as usize,
+        wildcards: false,
+        cross_zone_cnames: false,
+        ttl_choices: vec![3600],
+        ..GenOpts::default()
+    };
+    let mut u = universe::generate(&mut r, &opts);
+    let up_zones: Vec<usize> = (1..u.zones.len()).collect();
+
+    let len = match r.below(10) {
+        0 => 0,
+        1..=5 => r.range(1, 6),
+        6 => r.range(7, 25),
+        7 => r.range(30, 34),
+        _ => match tier {
+            Tier::Quick => r.range(26, 36),
+            Tier::Thorough => r.range(26, 40),
+        },
+    } as usize;
+    let sources: Vec<&str> = if mode == "authoritative" {
+        vec!["auth", "nonauth", "cache"]
+    } else {
+        vec!["auth", "nonauth", "cache", "upstream", "upstream"]
+    };
+    // runs of one source are more interesting than pure noise
+    let mut src_of: Vec<&str> = Vec::new();
+    let mut cur = *r.pick(&sources);
+    for _ in 0..=len {
+        if r.chance(0.4) {
+            cur = *r.pick(&sources);
+        }
+        src_of.push(cur);
+    }
+    let name_of = |i: usize, src: &str, r: &mut Rng, u: &Universe| -> String {
+        match src {
+            "auth" => format!("c{i}.{AUTH_APEX}"),
+            "nonauth" => format!("c{i}.over.test."),
+            "cache" => format!("c{i}.cached.test."),
+            _ => {
+                let z = *r.pick(&up_zones);
+                universe::child_name(&format!("c{i}"), &u.zones[z].apex)
+            }
+        }
+    };
+    let names: Vec<String> = (0..=len).map(|i| name_of(i, src_of[i], &mut r, &u)).collect();
+    let cycle_to: Option<usize> = if len > 0 && r.chance(0.25) {
+        Some(r.below(len as u64 + 1) as usize)
+    } else {
+        None
+    };
+    let qtype = *r.pick(&["A", "A", "TXT", "MX", "AAAA"]);
+    let final_data: Vec<String> = match r.below(4) {
+        0 => Vec::new(),
+        _ => match qtype {
+            "A" => vec!["A 192.0.2.1".into(), "A 192.0.2.2".into()],
+            "AAAA" => vec!["AAAA 2001:db8::1".into()],
+            "TXT" => vec!["TXT final".into()],
+            _ => vec!["MX 5 mx.final.test.".into()],
+        },
+    };
+
+    let mut auth = LocalZone {
+        apex: AUTH_APEX.into(),
+        soa: Some(AUTH_SOA.into()),
+        records: Vec::new(),
+    };
+    let mut nonauth = LocalZone {
+        apex: ".".into(),
+        soa: None,
+        records: Vec::new(),
+    };
+    let mut preload: Vec<universe::Rec> = Vec::new();
+    let mut put = |src: &str, rec: universe::Rec, u: &mut Universe| match src {
+        "auth" => auth.records.push(rec),
+        "nonauth" => nonauth.records.push(rec),
+        "cache" => preload.push(rec),
+        _ => {
+            let z = u.zone_owning(&rec.owner);
+            u.zones[z].records.push(rec);
+        }
+    };
+    for i in 0..=len {
+        let target: Option<String> = if i < len {
+            Some(names[i + 1].clone())
+        } else {
+            cycle_to.map(|j| names[j].clone())
+        };
+        match target {
+            Some(t) => put(src_of[i], universe::Rec::new(&names[i], &format!("CNAME {t}"), 3600), &mut u),
+            None => {
+                for d in &final_data {
+                    put(src_of[i], universe::Rec::new(&names[i], d, 3600), &mut u);
+                }
+            }
+        }
+    }
+    drop(put);
+    // a second way into the chain (a branch)
+    let has_branch = len > 1 && r.chance(0.2);
+    if has_branch {
+        nonauth
+            .records
+            .push(universe::Rec::new("branch.over.test.", &format!("CNAME {}", names[1]), 3600));
+    }
+
+    let recursive = mode != "authoritative";
+    let mut questions = vec![QuestionPlan {
+        gap_ms: 0,
+        name: names[0].clone(),
+        qtype: qtype.into(),
+        recursive,
+        prune_before: false,
+    }];
+    if r.chance(0.5) {
+        // again (the cache now holds the upstream links), or from the middle
+        let start = if r.chance(0.5) { 0 } else { r.below(len as u64 + 1) as usize };
+        questions.push(QuestionPlan {
+            gap_ms: *r.pick(&[0u64, 10, 1000]),
+            name: names[start].clone(),
+            qtype: (*r.pick(&[qtype, "A", "TXT"])).into(),
+            recursive,
+            prune_before: false,
+        });
+    }
+    if has_branch && r.chance(0.7) {
+        questions.push(QuestionPlan {
+            gap_ms: 0,
+            name: "branch.over.test.".into(),
+            qtype: qtype.into(),
+            recursive,
+            prune_before: false,
+        });
+    }
+    ResolvePlan {
+        knobs,
+        hints_auto: true,
+        local: vec![auth, nonauth],
+        universe: u,
+        cache_preload: preload,
+        questions,
+    }
+}
+
+/// The chain as the plan defines it, looked up source by source.
+fn reference_chain(plan: &ResolvePlan, qname: &str) -> (Vec<(String, String)>, Option<String>, bool) {
+    // (owner, target) links; final name; cyclic?
+    let mut links: BTreeMap<String, String> = BTreeMap::new();
+    let mut add = |rec: &universe::Rec| {
+        if rec.rtype() == "CNAME" && !rec.wild {
+            links
+                .entry(rec.owner.to_ascii_lowercase())
+                .or_insert_with(|| rec.rdata().to_ascii_lowercase());
+        }
+    };
+    for z in &plan.local {
+        z.records.iter().for_each(&mut add);
+    }
+    plan.cache_preload.iter().for_each(&mut add);
+    for z in &plan.universe.zones {
+        z.records.iter().for_each(&mut add);
+    }
+    let mut chain = Vec::new();
+    let mut name = qname.to_ascii_lowercase();
+    let mut seen = vec![name.clone()];
+    while let Some(t) = links.get(&name) {
+        chain.push((name.clone(), t.clone()));
+        if seen.contains(t) {
+            return (chain, None, true);
+        }
+        seen.push(t.clone());
+        name = t.clone();
+    }
+    (chain, Some(name), false)
+}
+
+fn oracle_c10(plan: &ResolvePlan, obs: &Observations) -> RunResult {
+    let mut res = base_result(obs);
+    for q in &obs.questions {
+        let qname = q.question.name.to_dotted_string();
+        if matches!(
+            q.question.qtype,
+            QueryType::Wildcard | QueryType::Record(RecordType::CNAME)
+        ) {
+            continue;
+        }
+        let (ref_chain, _final, cyclic) = reference_chain(plan, &qname);
+        bump(&mut res.stats, &format!("probe.chain_len_{}", match ref_chain.len() {
+            0 => "0",
+            1..=6 => "1_6",
+            7..=25 => "7_25",
+            26..=31 => "26_31",
+            32..=34 => "32_34",
+            _ => "35_plus",
+        }));
+        if cyclic {
+            bump(&mut res.stats, "probe.cycle_entered");
+        }
+        if q.elapsed_ms > 60_010 {
+            res.violations.push(Violation::new("c10.over_60s").detail(json!({"q": qfacts(q)})));
+        }
+        let rrs: Vec<ResourceRecord> = match &q.result {
+            Ok(ResolvedRecord::NonAuthoritative { rrs, .. } | ResolvedRecord::Authoritative { rrs, .. }) => rrs.clone(),
+            Ok(ResolvedRecord::AuthoritativeNameError { .. }) => Vec::new(),
+            Err(e) => {
+                match e {
+                    ResolutionError::RecursionLimit => bump(&mut res.stats, "probe.recursion_limit"),
+                    ResolutionError::DuplicateQuestion { .. } => bump(&mut res.stats, "probe.duplicate_question"),
+                    _ => bump(&mut res.stats, "probe.other_error"),
+                }
+                // an error is acceptable for loops and over-long chains only
+                // (and, without recursion, for a name nothing local knows)
+                let nothing_local = !q.recursive && ref_chain.is_empty();
+                if !cyclic && !nothing_local && ref_chain.len() <= 25 {
+                    let dead = depends_on_dead_delegation(plan, q);
+                    res.violations.push(
+                        Violation::new("c10.short_chain_failed")
+                            .fact("dead_delegation_in_cache", dead)
+                            .detail(json!({
+                                "q": qfacts(q), "reference_chain": ref_chain,
+                                "exchanges": exchange_summary(obs, q)
+                            })),
+                    );
+                }
+                continue;
+            }
+        };
+        if let Some(why) = chain_shape_error(&qname, q.question.qtype, &rrs) {
+            // did some upstream reply itself list its answer out of chain order?
+            let upstream_order = obs.exchanges[q.exchanges.clone()].iter().any(|e| {
+                match (&e.request, &e.reply) {
+                    (Some(rq), Some(m)) if !rq.questions.is_empty() => chain_shape_error(
+                        &rq.questions[0].name.to_dotted_string(),
+                        rq.questions[0].qtype,
+                        &m.answers,
+                    )
+                    .is_some(),
+                    _ => false,
+                }
+            });
+            res.violations.push(
+                Violation::new("c10.chain_shape")
+                    .fact("upstream_reply_out_of_order", upstream_order)
+                    .detail(json!({
+                        "why": why, "q": qfacts(q), "reference_chain": ref_chain,
+                        "exchanges": exchange_summary(obs, q)
+                    })),
+            );
+            continue;
+        }
+        // whole: short acyclic chains come back complete
+        let got_links: Vec<(String, String)> = rrs
+            .iter()
+            .filter_map(|rr| match &rr.rtype_with_data {
+                RecordTypeWithData::CNAME { cname } => Some((
+                    rr.name.to_dotted_string().to_ascii_lowercase(),
+                    cname.to_dotted_string().to_ascii_lowercase(),
+                )),
+                _ => None,
+            })
+            .collect();
+        // forwarding: the forwarder's answer is relayed as it is; what local
+        // data or the cache know about a name the forwarder's answer ends at
+        // is not consulted (that composition is judged under C01, not here)
+        let is_upstream = |n: &str| {
+            !(n.ends_with(AUTH_APEX) || n.ends_with("over.test.") || n.ends_with("cached.test."))
+        };
+        let acceptable_cut = plan.knobs.mode == "forwarding"
+            && !got_links.is_empty()
+            && got_links.len() < ref_chain.len()
+            && got_links[..] == ref_chain[..got_links.len()]
+            && {
+                let (o, t) = &ref_chain[got_links.len() - 1];
+                is_upstream(o) && !is_upstream(t)
+            };
+        if acceptable_cut {
+            bump(&mut res.stats, "probe.forwarder_answer_ended_at_locally_known_name");
+        }
+        if !cyclic && ref_chain.len() <= 25 && got_links != ref_chain && !acceptable_cut {
+            res.violations.push(Violation::new("c10.chain_not_whole").detail(json!({
+                "q": qfacts(q), "reference_chain": ref_chain, "got": got_links,
+                "exchanges": exchange_summary(obs, q)
+            })));
+        }
+        if ref_chain.len() >= 2 {
+            res.nontrivial = true;
+        }
+        // which sources the chain crossed
+        let mut kinds: std::collections::BTreeSet<&str> = std::collections::BTreeSet::new();
+        for (owner, _) in &ref_chain {
+            kinds.insert(if owner.ends_with(AUTH_APEX) {
+                "auth"
+            } else if owner.ends_with("over.test.") {
+                "nonauth"
+            } else if owner.ends_with("cached.test.") {
+                "cache"
+            } else {
+                "upstream"
+            });
+        }
+        bump(&mut res.stats, &format!("probe.sources_in_chain_{}", kinds.len()));
+    }
+    res.sample = Some(plan_sample(plan));
+    res
+}
+
+resolve_property!(
+    C10,
+    "C10",
+    "exploration",
+    gen_c10,
+    oracle_c10,
+    60_000,
+    1_000_000,
+    "alias chains of length 0..40 (dense around the limit of 32), cycles entered anywhere, links dealt in runs to an authoritative local zone, the non-authoritative root zone, the cache (preloaded or left by an earlier question) and upstream zones (correct servers, several links per reply or one, optionally final-before-alias order), question types A/AAAA/TXT/MX, recursive, forwarding and authoritative-only mode, 1..3 questions sharing the cache. Oracle: shape of the returned list (aliases in chain order from the question name, no owner twice, then only records of the asked type at the final target, none twice); chains of <= 25 links come back whole; loops and longer chains end in an error or a prefix of that shape; all within 60 s on a 2 MiB stack. Non-trivial = reference chain has >= 2 links; distinct = distinct (exchange sequence, result classes)",
+    [
+        "each name of the chain has exactly one source, so the reference chain does not depend on source priority",
+        "the forwarder is a correct recursive resolver (the code documents it as trusted); only the composition with local links is judged",
+        "an error for an acyclic chain of <= 25 links is a violation; between 26 and 40 links an error or a prefix is accepted"
+    ],
+    true
+);
